@@ -450,6 +450,11 @@ impl BloomFilter {
         }
 
         let num_words = num_longs as usize;
+        // a non-empty image carries the bit count and every word: do not allocate the array
+        // on the word of a length field the remaining bytes cannot back
+        if !is_empty && (num_words + 1).saturating_mul(8) > cursor.remaining() {
+            return Err(Error::insufficient_data("bit_array"));
+        }
         let mut bit_array = vec![0u64; num_words].into_boxed_slice();
         let num_bits_set;
 
